@@ -23,12 +23,56 @@ type ZM struct {
 }
 
 type Val struct {
-	Type string // string list set zset hash
-	Str  []byte
-	List [][]byte
-	Set  [][]byte
-	Hash [][2][]byte
-	ZSet []ZM
+	Type   string // string list set zset hash stream
+	Str    []byte
+	List   [][]byte
+	Set    [][]byte
+	Hash   [][2][]byte
+	ZSet   []ZM
+	Stream *StreamVal
+}
+
+// StreamID is a stream entry id.
+type StreamID struct{ Ms, Seq uint64 }
+
+func (id StreamID) String() string { return fmt.Sprintf("%d-%d", id.Ms, id.Seq) }
+
+// StreamEntry is one entry; Deleted entries stay in their listpack with the deleted flag.
+type StreamEntry struct {
+	ID      StreamID
+	Fields  [][2][]byte
+	Deleted bool
+}
+
+type StreamNack struct {
+	ID            StreamID
+	DeliveryTime  uint64
+	DeliveryCount uint64
+}
+
+type StreamConsumer struct {
+	Name       []byte
+	SeenTime   uint64
+	ActiveTime uint64
+	Pending    []StreamID
+}
+
+type StreamGroup struct {
+	Name        []byte
+	LastID      StreamID
+	EntriesRead uint64 // written from version 2 of the encoding on
+	PEL         []StreamNack
+	Consumers   []StreamConsumer
+}
+
+// StreamVal is a stream as rdb.c serialises it: radix tree nodes (one listpack per node, keyed by the id of its
+// first entry), then length, last id, (v2+: first id, max deleted id, entries added), then the consumer groups.
+type StreamVal struct {
+	Nodes        [][]StreamEntry // entries per listpack node, ids ascending
+	LastID       StreamID
+	MaxDeletedID StreamID
+	EntriesAdded uint64
+	Groups       []StreamGroup
 }
 
 type Entry struct {
@@ -48,6 +92,7 @@ var Encodings = map[string][]string{
 	"set":    {"table", "intset", "listpack"},
 	"zset":   {"skiplist", "skiplist2", "ziplist", "listpack"},
 	"hash":   {"table", "zipmap", "ziplist", "listpack"},
+	"stream": {"listpacks", "listpacks2", "listpacks3"},
 }
 
 // ---------------------------------------------------------------------------
@@ -541,8 +586,137 @@ func EncodeValue(v Val, enc string) (byte, []byte, error) {
 			str(Listpack(el))
 			return 16, b.Bytes(), nil
 		}
+	case "stream":
+		ver := map[string]int{"listpacks": 1, "listpacks2": 2, "listpacks3": 3}[enc]
+		if ver == 0 || v.Stream == nil {
+			return 0, nil, fmt.Errorf("stream encoding %q", enc)
+		}
+		b.Write(streamBody(v.Stream, ver))
+		return map[int]byte{1: 15, 2: 19, 3: 21}[ver], b.Bytes(), nil
 	}
 	return 0, nil, fmt.Errorf("unsupported %s/%s", v.Type, enc)
+}
+
+func be64(x uint64) []byte {
+	var t [8]byte
+	binary.BigEndian.PutUint64(t[:], x)
+	return t[:]
+}
+
+func le64(x uint64) []byte {
+	var t [8]byte
+	binary.LittleEndian.PutUint64(t[:], x)
+	return t[:]
+}
+
+func dec(x int64) []byte { return []byte(strconv.FormatInt(x, 10)) }
+
+// streamNode builds the listpack of one radix tree node (t_stream.c streamAppendItem layout): master entry
+// <count><deleted><num-fields><field...><0>, then per entry <flags><ms-delta><seq-delta>[<num-fields><field><value>...|<value>...]<lp-count>
+func streamNode(entries []StreamEntry) ([]byte, StreamID) {
+	master := entries[0]
+	var el [][]byte
+	live, deleted := 0, 0
+	for _, e := range entries {
+		if e.Deleted {
+			deleted++
+		} else {
+			live++
+		}
+	}
+	el = append(el, dec(int64(live)), dec(int64(deleted)), dec(int64(len(master.Fields))))
+	for _, f := range master.Fields {
+		el = append(el, f[0])
+	}
+	el = append(el, dec(0))
+	for _, e := range entries {
+		same := len(e.Fields) == len(master.Fields)
+		for i := range e.Fields {
+			same = same && bytes.Equal(e.Fields[i][0], master.Fields[i][0])
+		}
+		flags := int64(0)
+		if e.Deleted {
+			flags |= 1
+		}
+		if same {
+			flags |= 2
+		}
+		el = append(el, dec(flags), dec(int64(e.ID.Ms-master.ID.Ms)), dec(int64(e.ID.Seq-master.ID.Seq)))
+		if same {
+			for _, f := range e.Fields {
+				el = append(el, f[1])
+			}
+			el = append(el, dec(int64(len(e.Fields)+3)))
+		} else {
+			el = append(el, dec(int64(len(e.Fields))))
+			for _, f := range e.Fields {
+				el = append(el, f[0], f[1])
+			}
+			el = append(el, dec(int64(len(e.Fields)*2+4)))
+		}
+	}
+	return Listpack(el), master.ID
+}
+
+func streamBody(sv *StreamVal, ver int) []byte {
+	var b bytes.Buffer
+	b.Write(Len(uint64(len(sv.Nodes))))
+	length := uint64(0)
+	var first StreamID
+	haveFirst := false
+	for _, n := range sv.Nodes {
+		lp, mid := streamNode(n)
+		b.Write(RawString(append(be64(mid.Ms), be64(mid.Seq)...)))
+		b.Write(RawString(lp))
+		for _, e := range n {
+			if !e.Deleted {
+				length++
+				if !haveFirst {
+					first, haveFirst = e.ID, true
+				}
+			}
+		}
+	}
+	b.Write(Len(length))
+	b.Write(Len(sv.LastID.Ms))
+	b.Write(Len(sv.LastID.Seq))
+	if ver >= 2 {
+		b.Write(Len(first.Ms))
+		b.Write(Len(first.Seq))
+		b.Write(Len(sv.MaxDeletedID.Ms))
+		b.Write(Len(sv.MaxDeletedID.Seq))
+		b.Write(Len(sv.EntriesAdded))
+	}
+	b.Write(Len(uint64(len(sv.Groups))))
+	for _, g := range sv.Groups {
+		b.Write(RawString(g.Name))
+		b.Write(Len(g.LastID.Ms))
+		b.Write(Len(g.LastID.Seq))
+		if ver >= 2 {
+			b.Write(Len(g.EntriesRead))
+		}
+		b.Write(Len(uint64(len(g.PEL))))
+		for _, n := range g.PEL {
+			b.Write(be64(n.ID.Ms))
+			b.Write(be64(n.ID.Seq))
+			b.Write(le64(n.DeliveryTime))
+			b.Write(Len(n.DeliveryCount))
+		}
+		b.Write(Len(uint64(len(g.Consumers))))
+		for _, c := range g.Consumers {
+			b.Write(RawString(c.Name))
+			b.Write(le64(c.SeenTime))
+			if ver >= 3 {
+				b.Write(le64(c.ActiveTime))
+			}
+			b.Write(Len(uint64(len(c.Pending))))
+			for _, id := range c.Pending {
+				b.Write(be64(id.Ms))
+				b.Write(be64(id.Seq))
+			}
+		}
+	}
+	return b.Bytes()
 }
 
 // Build serialises the entries (grouped by DB in the given order) into an RDB of the given version.
